@@ -12,16 +12,49 @@ Open Scope Z_scope.
 Definition open_zipfile (L : limits) (o : zip_oracle) : bresult :=
   if zo_opens o then bresult_of (validate_zipfile L (zo_infos o)) else BRaiseBadZip.
 
+(* a call either behaves like a guard call (returns / raises) or returns a boolean *)
+Inductive sresult := SGuard (r : bresult) | SBool (b : bool).
+
+(* encryption.is_odf_encrypted: zipfile.is_zipfile (oracle) false -> False without opening anything;
+   otherwise the package is opened through open_zipfile (default limits) -- the bomb error / BadZipFile
+   propagate -- and only then META-INF/manifest.xml is read; `enc` is the oracle "the manifest exists,
+   parses and contains an encryption-data element" (ElementTree). *)
+Definition is_odf_encrypted (L : limits) (is_zip : bool) (o : zip_oracle) (enc : bool) : sresult :=
+  if is_zip then
+    match open_zipfile L o with
+    | BReturn => SBool enc
+    | r => SGuard r
+    end
+  else SBool false.
+
+(* events of one is_odf_encrypted call on container c (same alphabet as ZipContext) *)
+Definition odf_probe_events (L : limits) (c : N) (is_zip : bool) (o : zip_oracle) : list event :=
+  if is_zip then
+    if zo_opens o then
+      match validate_zipfile L (zo_infos o) with
+      | Accept => [EvOpen c; EvValidate c true; EvRead c; EvClose c]
+      | _ => [EvOpen c; EvValidate c false; EvClose c]
+      end
+    else []
+  else [].
+
 Inductive call :=
   | CValidateBytesio (L : limits) (pos : Z) (o : zip_oracle)
   | COpenZipfile (L : limits) (o : zip_oracle)
-  | CZipContext (L : limits) (o : zip_oracle).       (* L = the default limits: ZipContext passes none *)
+  | CZipContext (L : limits) (o : zip_oracle)        (* L = the default limits: ZipContext passes none *)
+  | CIsOdfEncrypted (L : limits) (is_zip : bool) (o : zip_oracle) (enc : bool).
 
-Definition run_call (c : call) : bresult :=
+Definition run_call (c : call) : sresult :=
   match c with
-  | CValidateBytesio L pos o => fst (validate_zip_bytesio L pos o)
-  | COpenZipfile L o => open_zipfile L o
-  | CZipContext L o => open_zipfile L o
+  | CValidateBytesio L pos o => SGuard (fst (validate_zip_bytesio L pos o))
+  | COpenZipfile L o => SGuard (open_zipfile L o)
+  | CZipContext L o => SGuard (open_zipfile L o)
+  | CIsOdfEncrypted L z o e => is_odf_encrypted L z o e
   end.
 
-Definition run_session (cs : list call) : list bresult := map run_call cs.
+Definition run_session (cs : list call) : list sresult := map run_call cs.
+
+(* what an accepted container can cost: `out x` = bytes a reader obtains from member x *)
+Definition total_out (out : entry -> Z) (es : list entry) : Z := fold_right (fun x acc => out x + acc) 0 es.
+Definition reader_truncates (out : entry -> Z) (es : list entry) : bool :=
+  forallb (fun x => (0 <=? out x) && (out x <=? file_size x)) es.
